@@ -21,6 +21,7 @@ FIXES = [  # (commit, property, expected class prefix, VSIM_COUNT)
     ('fe95524', 'C03', 'V-result-depends-on-history', 2400),
     ('979adeb', 'C14', 'R-', 3200),
     ('901b2bf', 'C14', 'R-tolerance-not-met', 3200),
+    ('7049b8a', 'C18', 'J1-unexpected-exception', 360),
 ]
 
 
